@@ -11,6 +11,9 @@
 //!   answer   one line per session, flushed: `{"out":[["js",text]|["err",msg]|["abandoned"]|["="]…], "live_max":n,
 //!             "reissue_window":bool, "trace":[…]}`; `["="]` = identical to the same task's result in session 0
 //!            (session 0 is by convention the fresh one-at-a-time session).
+//!   request  `{"singles":[{"config_text","main","imports":[[path,text]…]}…]}` (the one-at-a-time stream: `load_config`, one build,
+//!             all on one loader instance) → one line per case, flushed: `{"js":text}` | `{"err":msg}`
+//!   a line `p {"call","msg"}` is written by the panic hook before the process aborts: the ABI call that was running.
 //! A schedule item `k` means "perform the next ABI call of the build of task k" (the per-build call sequence is the one of
 //! index.mjs/task.ts: initiate_task, get_required_files, load_file per required file, get_required_files …, emit_js,
 //! free_task); `"cfg"` = `load_config` (index.mjs loads the config after the first `initiateTask`). When the schedule is
@@ -22,6 +25,14 @@ use std::io::{BufRead, BufReader, Write};
 use std::process::{Child, ChildStdin, ChildStdout, Command, Stdio};
 
 // ------------------------------------------------------------------------------------------------ worker side
+
+const CALLS: [&str; 9] = ["(no ABI call)", "load_config", "initiate_task", "get_required_files", "load_file", "emit_js", "free_task", "get_result", "alloc/free_string"];
+static CURRENT: std::sync::atomic::AtomicUsize = std::sync::atomic::AtomicUsize::new(0);
+
+/// remember which ABI call is about to run (reported by the panic hook of the worker)
+pub fn mark(call: &str) {
+    CURRENT.store(CALLS.iter().position(|c| *c == call).unwrap_or(0), std::sync::atomic::Ordering::Relaxed);
+}
 
 #[derive(Clone, Debug, PartialEq)]
 pub enum Out {
@@ -75,7 +86,9 @@ fn short(s: &str) -> String {
 
 impl<'a> Session<'a> {
     fn load_config(&mut self) {
+        mark("load_config");
         let ok = super::abi_call_str(self.config_text, |p, n| loader_native::load_config(p, n));
+        mark("");
         self.cfg_loaded = true;
         self.trace.push(format!("load_config -> {ok}"));
     }
@@ -96,7 +109,9 @@ impl<'a> Session<'a> {
         let id = self.st[k].id;
         if let Some(n) = self.abandon.get(k).copied().flatten() {
             if self.st[k].calls >= n && self.st[k].phase != Phase::NotStarted && self.st[k].phase != Phase::Emitted {
+                mark("free_task");
                 loader_native::free_task(id);
+                mark("");
                 self.trace.push(format!("t{k}: free_task({id}) [build given up]"));
                 self.freed(k);
                 self.finish(k, Out::Abandoned);
@@ -107,6 +122,7 @@ impl<'a> Session<'a> {
         match self.st[k].phase {
             Phase::NotStarted => {
                 let (path, text) = &self.tasks[k];
+                mark("initiate_task");
                 let id = super::abi_call_str(path, |fp, fl| super::abi_call_str(text, |sp, sl| loader_native::initiate_task(fp, fl, sp, sl)));
                 if id == 0 {
                     let e = super::abi_result();
@@ -129,6 +145,7 @@ impl<'a> Session<'a> {
                     self.finish(k, Out::Err("too many rounds of required files".into()));
                     return;
                 }
+                mark("get_required_files");
                 if !loader_native::get_required_files(id) {
                     let e = super::abi_result();
                     self.trace.push(format!("t{k}: get_required_files({id}) -> false ({})", short(&e)));
@@ -155,6 +172,7 @@ impl<'a> Session<'a> {
                 };
                 match self.files.get(&path) {
                     Some(text) => {
+                        mark("load_file");
                         let ok = super::abi_call_str(&path, |fp, fl| super::abi_call_str(text, |sp, sl| loader_native::load_file(id, fp, fl, sp, sl)));
                         if !ok {
                             let e = super::abi_result();
@@ -179,6 +197,7 @@ impl<'a> Session<'a> {
                 if !self.cfg_loaded {
                     self.load_config();
                 }
+                mark("emit_js");
                 if loader_native::emit_js(id) {
                     let js = super::abi_result();
                     self.trace.push(format!("t{k}: emit_js({id}) -> true ({} bytes)", js.len()));
@@ -191,6 +210,7 @@ impl<'a> Session<'a> {
                 }
             }
             Phase::Emitted => {
+                mark("free_task");
                 loader_native::free_task(id);
                 self.trace.push(format!("t{k}: free_task({id})"));
                 self.freed(k);
@@ -250,7 +270,12 @@ fn run_session(config_text: &str, tasks: &[(String, String)], files: &BTreeMap<S
 
 pub fn worker_main() {
     loader_native::init(0);
-    std::panic::set_hook(Box::new(|_| {}));
+    std::panic::set_hook(Box::new(|info| {
+        let call = CALLS[CURRENT.load(std::sync::atomic::Ordering::Relaxed).min(CALLS.len() - 1)];
+        let mut o = std::io::stdout().lock();
+        let _ = writeln!(o, "p {}", json!({"call": call, "msg": info.to_string()}));
+        let _ = o.flush();
+    }));
     let stdin = std::io::stdin();
     let stdout = std::io::stdout();
     for line in stdin.lock().lines() {
@@ -262,6 +287,25 @@ pub fn worker_main() {
             Ok(v) => v,
             Err(_) => break,
         };
+        if let Some(singles) = req["singles"].as_array() {
+            // the whole batch on one fresh loader instance, one build after the other
+            let singles = singles.clone();
+            let _ = std::thread::Builder::new().stack_size(8 << 20).spawn(move || {
+                for c in &singles {
+                    let imports: Vec<(String, String)> = c["imports"].as_array().map(|a| a.iter().map(|p| (p[0].as_str().unwrap_or("").to_string(), p[1].as_str().unwrap_or("").to_string())).collect()).unwrap_or_default();
+                    let (cfg, main) = (c["config_text"].as_str().unwrap_or("").to_string(), c["main"].as_str().unwrap_or("").to_string());
+                    let answer = match nvh::catch(move || super::real_loader_texts(&cfg, &main, &imports)) {
+                        Ok(Ok(js)) => json!({"js": js}),
+                        Ok(Err(e)) => json!({"err": e}),
+                        Err(p) => json!({"err": format!("panic in the worker: {p}")}),
+                    };
+                    let mut o = std::io::stdout().lock();
+                    let _ = writeln!(o, "{answer}");
+                    let _ = o.flush();
+                }
+            }).expect("spawn batch thread").join();
+            continue;
+        }
         let config_text = req["config_text"].as_str().unwrap_or("").to_string();
         let tasks: Vec<(String, String)> = req["tasks"].as_array().map(|a| a.iter().map(|t| (t["path"].as_str().unwrap_or("").to_string(), t["text"].as_str().unwrap_or("").to_string())).collect()).unwrap_or_default();
         let files: BTreeMap<String, String> = req["files"].as_object().map(|m| m.iter().map(|(k, v)| (k.clone(), v.as_str().unwrap_or("").to_string())).collect()).unwrap_or_default();
@@ -301,17 +345,26 @@ pub struct Client {
     exe: std::path::PathBuf,
     proc: Option<(Child, ChildStdin, BufReader<ChildStdout>)>,
     pub spawned: u64,
+    pub deaths: u64,
+}
+
+#[derive(Clone, Debug)]
+pub struct Death {
+    /// how the process ended (+ the panic message, when the panic hook could still write it)
+    pub why: String,
+    /// the ABI call that was running
+    pub call: String,
 }
 
 pub enum Answer {
     Ok(Value),
-    /// the worker process died while executing this session (abort inside the loader)
-    Died(String),
+    /// the worker process died while executing this item (abort inside the loader)
+    Died(Death),
 }
 
 impl Client {
     pub fn new() -> Client {
-        Client { exe: std::env::current_exe().expect("current exe"), proc: None, spawned: 0 }
+        Client { exe: std::env::current_exe().expect("current exe"), proc: None, spawned: 0, deaths: 0 }
     }
     fn ensure(&mut self) {
         if self.proc.is_none() {
@@ -323,6 +376,7 @@ impl Client {
         }
     }
     fn reap(&mut self) -> String {
+        self.deaths += 1;
         match self.proc.take() {
             Some((mut child, stdin, _)) => {
                 drop(stdin);
@@ -331,7 +385,7 @@ impl Client {
                     Ok(st) => {
                         use std::os::unix::process::ExitStatusExt;
                         match (st.signal(), st.code()) {
-                            (Some(6), _) => "killed by SIGABRT (a panic inside an extern \"C\" function aborts)".to_string(),
+                            (Some(6), _) => "killed by SIGABRT".to_string(),
                             (Some(11), _) => "killed by SIGSEGV".to_string(),
                             (Some(s), _) => format!("killed by signal {s}"),
                             (None, Some(c)) => format!("exit code {c}"),
@@ -344,12 +398,56 @@ impl Client {
             None => "no worker".to_string(),
         }
     }
+    /// send one request that is answered by `n` lines; returns the answers received and, if the worker died before the
+    /// n-th answer, how it died (the item that killed it is the first unanswered one)
+    fn exchange(&mut self, req: &Value, n: usize) -> (Vec<Value>, Option<Death>) {
+        self.ensure();
+        let line = format!("{}\n", serde_json::to_string(req).unwrap());
+        // the writer must not block the reader: a large request is written from a thread
+        let mut answers = vec![];
+        let mut panic_note: Option<(String, String)> = None;
+        let (_, stdin, stdout) = self.proc.as_mut().unwrap();
+        let dead = std::thread::scope(|sc| {
+            let w = sc.spawn(move || {
+                let _ = stdin.write_all(line.as_bytes());
+                let _ = stdin.flush();
+            });
+            let mut dead = false;
+            while answers.len() < n {
+                let mut text = String::new();
+                if stdout.read_line(&mut text).unwrap_or(0) == 0 {
+                    dead = true;
+                    break;
+                }
+                if let Some(rest) = text.strip_prefix("p ") {
+                    if let Ok(v) = serde_json::from_str::<Value>(rest) {
+                        if panic_note.is_none() {
+                            panic_note = Some((v["call"].as_str().unwrap_or("").to_string(), v["msg"].as_str().unwrap_or("").to_string()));
+                        }
+                    }
+                    continue;
+                }
+                answers.push(serde_json::from_str(&text).unwrap_or(Value::Null));
+            }
+            let _ = w.join();
+            dead
+        });
+        if !dead {
+            return (answers, None);
+        }
+        let status = self.reap();
+        let death = match panic_note {
+            Some((call, msg)) => Death { why: format!("{status} after a panic inside `{call}` (a panic in an extern \"C\" function cannot unwind): {}", msg.replace('\n', " ")), call },
+            None => Death { why: status, call: "unknown-call".into() },
+        };
+        (answers, Some(death))
+    }
+
     /// run the sessions of one request; the answers are in session order. After a death the remaining sessions are
     /// re-submitted to a fresh worker (session 0 is prepended again so that `["="]` keeps its meaning).
     pub fn run(&mut self, base: &Value, sessions: &[Value]) -> Vec<Answer> {
         let mut answers: Vec<Answer> = vec![];
         while answers.len() < sessions.len() {
-            self.ensure();
             let done = answers.len();
             let mut batch: Vec<Value> = vec![];
             if done > 0 {
@@ -359,32 +457,34 @@ impl Client {
             let skip = if done > 0 { 1 } else { 0 };
             let mut req = base.clone();
             req["sessions"] = Value::Array(batch.clone());
-            let line = format!("{}\n", serde_json::to_string(&req).unwrap());
-            let mut died = false;
-            {
-                let (_, stdin, _) = self.proc.as_mut().unwrap();
-                if stdin.write_all(line.as_bytes()).is_err() || stdin.flush().is_err() {
-                    died = true;
+            let (got, death) = self.exchange(&req, batch.len());
+            let ngot = got.len();
+            for v in got.into_iter().skip(skip) {
+                answers.push(Answer::Ok(v));
+            }
+            if let Some(d) = death {
+                if ngot >= skip {
+                    answers.push(Answer::Died(d));
+                } else {
+                    // the one-at-a-time session itself kills the worker: nothing to compare with
+                    while answers.len() < sessions.len() {
+                        answers.push(Answer::Died(Death { why: format!("{} (already in the one-at-a-time session)", d.why), call: d.call.clone() }));
+                    }
                 }
             }
-            for j in 0..batch.len() {
-                let mut text = String::new();
-                let n = if died { 0 } else { self.proc.as_mut().unwrap().2.read_line(&mut text).unwrap_or(0) };
-                if n == 0 {
-                    let why = self.reap();
-                    if j >= skip {
-                        answers.push(Answer::Died(why));
-                    } else {
-                        // the one-at-a-time session itself kills the worker: nothing to compare with
-                        while answers.len() < sessions.len() {
-                            answers.push(Answer::Died(format!("{why} (already in the one-at-a-time session)")));
-                        }
-                    }
-                    break;
-                }
-                if j >= skip {
-                    answers.push(Answer::Ok(serde_json::from_str(&text).unwrap_or(Value::Null)));
-                }
+        }
+        answers
+    }
+
+    /// the one-at-a-time stream: each case = `load_config` + one build; after a death the rest continues in a fresh worker
+    pub fn singles(&mut self, cases: &[Value]) -> Vec<Answer> {
+        let mut answers: Vec<Answer> = vec![];
+        while answers.len() < cases.len() {
+            let rest = &cases[answers.len()..];
+            let (got, death) = self.exchange(&json!({"singles": rest}), rest.len());
+            answers.extend(got.into_iter().map(Answer::Ok));
+            if let Some(d) = death {
+                answers.push(Answer::Died(d));
             }
         }
         answers
